@@ -107,6 +107,15 @@ func marshalFeed(m *gtfsrt.FeedMessage) []byte {
 	return b
 }
 
+// marshalFeedPartial encodes a message whose required fields may be missing.
+func marshalFeedPartial(m *gtfsrt.FeedMessage) []byte {
+	b, err := proto.MarshalOptions{AllowPartial: true}.Marshal(m)
+	if err != nil {
+		harnessBug("proto.Marshal: %v", err)
+	}
+	return b
+}
+
 func feedText(m *gtfsrt.FeedMessage) string {
 	return prototext.MarshalOptions{Multiline: true, Indent: " "}.Format(m)
 }
